@@ -20,6 +20,7 @@ type (
 		errors     []*ParseError // errors encountered during parsing
 		fatal      bool          // parser encountered a fatal error
 		lookahead  *item         // lookahead token
+		lastNamed  item          // the last identifier or string literal matched into a *string
 		checks     []typeCheck   // checks to perform on the namespace
 	}
 )
@@ -135,6 +136,7 @@ func (p *parser) match(tokens ...interface{}) (matched bool) {
 				return false
 			}
 			*token = i.Val
+			p.lastNamed = i
 		case *item:
 			*token = p.next()
 		case matcher:
@@ -518,20 +520,22 @@ func (p *parser) parseTupleToSubjectSet(relation item) (rewrite ast.Child) {
 		if !p.matchPropertyAccess(&subjectSetRel) {
 			return nil
 		}
+		subjectSetRelItem := p.lastNamed
 		p.match(
 			".", "includes", "(", "ctx", ".", "subject",
 			optional(","), ")", optional(","), ")",
 		)
 		p.addCheck(checkAllRelationsTypesHaveRelation(
-			&p.namespace, relation, subjectSetRel,
+			&p.namespace, relation, subjectSetRelItem,
 		))
 	case "permits":
 		if !p.matchPropertyAccess(&subjectSetRel) {
 			return nil
 		}
+		subjectSetRelItem := p.lastNamed
 		p.match("(", "ctx", ")", ")")
 		p.addCheck(checkAllRelationsTypesHaveRelation(
-			&p.namespace, relation, subjectSetRel,
+			&p.namespace, relation, subjectSetRelItem,
 		))
 	default:
 		p.addFatal(verb, "expected 'related' or 'permits', got %q", verb)
